@@ -904,6 +904,11 @@ type NegateNode struct {
 }
 
 func (n *NegateNode) String() string {
+	switch n.Arg.(type) {
+	case *IntNode, *FloatNode:
+		// "-1" is the negative literal, not the negation of 1.
+		return "-(" + operandString(n.Arg) + ")"
+	}
 	return "-" + operandString(n.Arg)
 }
 
